@@ -281,6 +281,34 @@ func NewACL(ctx context.Context, policies []*Policy) (*ACL, error) {
 				existingPerms.ResponseKeysFilterPath = pc.Permissions.ResponseKeysFilterPath
 			}
 
+			// A control group required by any of the policies stays required,
+			// whatever the order of the policies. The factors of all policies
+			// are combined (every applicable factor has to be satisfied), the
+			// lowest set TTL wins and self authorization is only allowed if
+			// all control groups allow it.
+			if pc.ControlGroup != nil {
+				clonedGroup, err := pc.ControlGroup.Clone()
+				if err != nil {
+					return nil, fmt.Errorf("error cloning ACL control group: %w", err)
+				}
+
+				if existingGroup := existingPerms.ControlGroup; existingGroup == nil {
+					existingPerms.ControlGroup = clonedGroup
+				} else {
+					if clonedGroup.TTL > 0 && (existingGroup.TTL == 0 || clonedGroup.TTL < existingGroup.TTL) {
+						existingGroup.TTL = clonedGroup.TTL
+					}
+					existingGroup.SelfAuthorizationAllowed = existingGroup.SelfAuthorizationAllowed && clonedGroup.SelfAuthorizationAllowed
+					for _, factor := range clonedGroup.Factors {
+						if !slices.ContainsFunc(existingGroup.Factors, func(f ControlGroupFactor) bool {
+							return reflect.DeepEqual(f, factor)
+						}) {
+							existingGroup.Factors = append(existingGroup.Factors, factor)
+						}
+					}
+				}
+			}
+
 		INSERT:
 			switch {
 			case pc.HasSegmentWildcards:
